@@ -33,6 +33,7 @@ def run(rep, tier):
     dense.r_seg_keep(rep, f)
     dense.r_seg_filter(rep, f)
     dense.r_seg_lookup(rep, f)
+    dense.r_seg_per_query(rep, f)
     rep.rule("R-SPAN-ENDS", "ContinuousOutput::t_span() is (first segment's xold, last segment's xold + h) in the order of integration (symbolic, dense.rs helpers interpreted in place)")
     dense.r_span_ends(rep, f)
     rep.rule("R-BDF-DENSE", "BDF dense block: for every order the slots BDF::solve fills with backward differences are exactly the slots BDF::interpolate sums, slot s holding D_s (finite evaluation of the writer's guard and the reader's range)")
